@@ -54,8 +54,8 @@ FILE_CHECKS = {
     "src/sse/qmc_traits/rvb.rs": ["C03", "C06", "C07", "C18", "C14"],
     "src/sse/qmc_traits/qmc_stepper.rs": ["C17", "C20", "C01"],
     "src/sse/qmc_traits/diagonal_subsection.rs": ["C11", "C03", "C12", "C06"],
-    "src/sse/qmc_ising.rs": ["C12", "C13", "C06", "C07", "C09", "C15", "C17", "C14", "C03", "C02", "C05", "C10", "C18", "C01"],
-    "src/sse/qmc_runner.rs": ["C16", "C13", "C12", "C15", "C06", "C07", "C17", "C10", "C02", "C14", "C04"],
+    "src/sse/qmc_ising.rs": ["C12", "C13", "C06", "C07", "C09", "C15", "C17", "C14", "C03", "C02", "C05", "C10", "C18", "C20", "C01"],
+    "src/sse/qmc_runner.rs": ["C16", "C13", "C12", "C15", "C06", "C07", "C17", "C10", "C02", "C14", "C20", "C04"],
     "src/sse/qmc_types.rs": ["C04", "C06", "C13"],
     "src/sse/ham.rs": ["C08", "C06", "C12", "C01", "C04"],
     "src/sse/parallel_tempering/tempering_container.rs": ["C13", "C10", "C05", "C17", "C20", "C14"],
@@ -836,7 +836,10 @@ def cmd_confirm(args):
         w.restore()
         w.refresh_harness()
         w.apply(rec)
-        props = [c["check"] for c in rec.get("checks", [])] or checks_for(rec)
+        props = [c["check"] for c in rec.get("checks", [])]
+        props += [p for p in checks_for(rec) if p not in props]
+        if args.only_new:
+            props = [p for p in props if p not in [c["check"] for c in rec.get("checks", [])]] + [p for p in props if p in SERIALISED]
         if not args.all_checks:
             props = [p for p in props if p in SERIALISED] + [p for p in props if p not in SERIALISED][:args.max_checks]
         reruns = []
@@ -930,7 +933,7 @@ def main():
     r.add_argument("--tier", default="quick"); r.add_argument("--only-files", default="")
     o = sub.add_parser("one"); o.add_argument("id"); o.add_argument("--worker", type=int, default=0)
     c = sub.add_parser("confirm"); c.add_argument("--all-checks", action="store_true"); c.add_argument("--max-checks", type=int, default=99)
-    c.add_argument("--minutes", type=float, default=60)
+    c.add_argument("--minutes", type=float, default=60); c.add_argument("--only-new", action="store_true")
     sub.add_parser("report")
     sub.add_parser("cleanup")
     a = ap.parse_args()
